@@ -93,7 +93,7 @@ class PartitionedDistinguisherMixin(_PartitionnedDistinguisherBaseMixin):
     def _accumulate_core_1(traces, data, self_sum, self_sum_square, self_counters, self_precision):
         for sample_idx in _nb.prange(traces.shape[1]):
             for trace_idx in range(traces.shape[0]):
-                x = traces[trace_idx, sample_idx]
+                x = self_sum.dtype.type(traces[trace_idx, sample_idx])
                 xx = x * x
                 for data_idx in range(data.shape[1]):
                     data_value = data[trace_idx, data_idx]
